@@ -429,6 +429,8 @@ Definition ds_model (c : ds_case) : dstate * list dout :=
 
 Definition has_close (evs : list dev) : bool :=
   existsb (fun e => match e with Close => true | _ => false end) evs.
+Definition has_closing (evs : list dev) : bool :=
+  existsb (fun e => match e with Close | ConnClose _ => true | _ => false end) evs.
 Definition has_connclose (evs : list dev) : bool :=
   existsb (fun e => match e with ConnClose _ => true | _ => false end) evs.
 
@@ -584,6 +586,15 @@ Fixpoint strictly_inc (n : N) (l : list N) : bool :=
 Definition no_failed_send (evs : list dev) : bool :=
   forallb (fun e => match e with AckTick false | ConnClose false => false | _ => true end) evs.
 
+(* the stream is closed by its own Close (a close request is due) before its connection goes away *)
+Fixpoint stream_close_first (evs : list dev) : bool :=
+  match evs with
+  | [] => false
+  | Close :: _ => true
+  | ConnClose _ :: _ => false
+  | _ :: r => stream_close_first r
+  end.
+
 Definition c04_ok (c : ds_case) : bool :=
   let au := ack_ups (dc_acks c) in
   let ai := ack_ids (dc_acks c) in
@@ -609,8 +620,8 @@ Definition c04_ok (c : ds_case) : bool :=
         forallb (fun i => existsb (N.eqb i) (map snd au)) (fst seen)
         && forallb (fun i => existsb (N.eqb i) (map snd (dc_open c ++ ai))) (snd seen)
       else true)
-  (* Close: one close request, and every ack before it *)
-  && (if has_close (dc_evs c) then (dc_ncloses c =? 1) && (dc_nbefore c =? N.of_nat (length (dc_acks c)))
+  (* Close: one close request, and every ack before it; none when the connection was closed first *)
+  && (if stream_close_first (dc_evs c) then (dc_ncloses c =? 1) && (dc_nbefore c =? N.of_nat (length (dc_acks c)))
       else dc_ncloses c =? 0).
 
 Definition ds_judge (c : ds_case) : N :=
